@@ -3,6 +3,7 @@ CONSTANTS
   Record = FALSE
   Scripts <- Scripts13
   FaultChoices <- SomeFaults
+  RouteChoices <- DistinctRoutes
 PROPERTY Termination
 INVARIANT EachOnce
 INVARIANT ReturnsAfterAll
